@@ -110,6 +110,7 @@ type pathCtx struct {
 	doms     map[*Term]*byteDom
 	domSkips int
 	pend     []pendingAssert
+	codecs   map[*value]*codecState
 	symTime  bool
 	clock    int64
 	fixed    map[uint64][]fixedTerm
